@@ -1,10 +1,10 @@
 package main
 
 import (
-	bpmn "github.com/olive-io/bpmn/v2"
-	"time"
 	"fmt"
+	bpmn "github.com/olive-io/bpmn/v2"
 	"math/rand"
+	"time"
 
 	"github.com/olive-io/bpmn/schema"
 	"github.com/olive-io/bpmn/v2/pkg/event"
@@ -85,6 +85,41 @@ func c14Run(kind, n int, h []int) (log []int, fires int) {
 			fires++
 		}
 		log = append(log, code)
+	}
+	return
+}
+
+// c14Step feeds one event to a satisfier; same log code as c14Run
+func c14Step(s satisfier, n, e int) (code int, fired bool) {
+	m, c := s.Satisfy(c14Event(n, e))
+	if c == logic.EventDidNotMatch {
+		if m {
+			return 4999, false
+		}
+		return 0, false
+	}
+	code = 1 + 2*c
+	if m {
+		code++
+	}
+	return code, m
+}
+
+// two satisfiers of the same kind alive at once (two instances, or two catch events built from equal definitions),
+// their histories interleaved: each must answer as if it were alone
+func c14Interleaved(kind, n int, h1, h2 []int, rng *rand.Rand) (log1, log2 []int) {
+	s1, s2 := c14New(kind, n), c14New(kind, n)
+	i, j := 0, 0
+	for i < len(h1) || j < len(h2) {
+		if j >= len(h2) || (i < len(h1) && rng.Intn(2) == 0) {
+			c, _ := c14Step(s1, n, h1[i])
+			log1 = append(log1, c)
+			i++
+		} else {
+			c, _ := c14Step(s2, n, h2[j])
+			log2 = append(log2, c)
+			j++
+		}
 	}
 	return
 }
@@ -205,6 +240,48 @@ func runC14(env *Env) {
 		}
 		rng.Shuffle(len(h), func(a, b int) { h[a], h[b] = h[b], h[a] })
 		do(kind, n, h)
+	}
+	// several satisfiers alive at once
+	flagsOf := func(log []int) []int {
+		f := make([]int, len(log))
+		for i, c := range log {
+			if c > 0 && c%2 == 0 {
+				f[i] = 1
+			}
+		}
+		return f
+	}
+	nPairs := 150
+	if env.Thorough() {
+		nPairs = 1500
+	}
+	for i := 0; i < nPairs; i++ {
+		kind := 1 + rng.Intn(2)
+		n := 2 + rng.Intn(maxN-1)
+		mk := func() []int {
+			h := make([]int, 2+rng.Intn(8))
+			for j := range h {
+				if rng.Intn(8) == 0 {
+					h[j] = rng.Intn(n + 1)
+				} else {
+					h[j] = rng.Intn(n)
+				}
+			}
+			return h
+		}
+		h1, h2 := mk(), mk()
+		l1, l2 := c14Interleaved(kind, n, h1, h2, rng)
+		rep.Evaluations++
+		rep.Nontrivial++
+		rep.Count("two_satisfiers_interleaved")
+		for k, pr := range [][2][]int{{h1, l1}, {h2, l2}} {
+			alone, _ := c14Run(kind, n, pr[0])
+			if !intsEq(flagsOf(alone), flagsOf(pr[1])) {
+				rep.Violate("C14-accounting", fmt.Sprintf("kind=%d n=%d two satisfiers with interleaved histories %v and %v", kind, n, h1, h2),
+					fmt.Sprintf("satisfier %d answered %v; alone, on the same history, it answers %v", k+1, flagsOf(pr[1]), flagsOf(alone)))
+			}
+			items = append(items, fmt.Sprintf("(%d,%d,%s,%s)", kind, n, natList(pr[0]), natList(flagsOf(pr[1]))))
+		}
 	}
 	rep.Exhaustive = false
 	// shard the cases file (vm_compute + parsing scale linearly; keep files moderate)
